@@ -206,3 +206,10 @@ Fixpoint uniq (d : json) : bool :=
    members only and none of them is the root pointer *)
 Definition wf_C13 (acl : list pattern) (old f : json) : bool :=
   uniq old && uniq f && wf_frag acl old f && forallb (fun pat => negb (Nat.eqb (List.length pat) 0)) acl.
+
+(* guard of the filter theorem: dict invariant; filters that parse address object members *)
+Definition wf_filter (d : json) (filters : list string) : bool :=
+  uniq d &&
+  forallb (fun s => let t := strip s in
+                    is_empty t || match parse_pointer t with Some pat => objects_only pat d | None => true end)
+          filters.
